@@ -1508,6 +1508,10 @@ class Interp:
                 if ok:
                     return AV(ty='dict', kw=kw, fresh=True, deps=frozenset().union(*[v.deps or frozenset() for v in kw.values()]))
         (k, v), cst, me = self._comp(n, frame, st, [n.key, n.value])
+        src0 = self.values.get(id(n.generators[0].iter))
+        if src0 is not None and src0.groupby_runs:
+            # one entry per RUN of equal keys: a key that occurs in several runs keeps only its last run
+            self.emit('groupby_overwrite', n, source=src0)
         return AV(ty='dict', elem=v, keyelem=k, fresh=True, overwrite=True, deps=(k.deps or frozenset()) | (v.deps or frozenset()))
 
     def e_Yield(self, n, frame, st):
